@@ -2,6 +2,7 @@ package main
 
 import (
 	"fmt"
+	"sort"
 	"strings"
 )
 
@@ -33,7 +34,7 @@ func init() {
 		Exhaustive: func(string) bool { return false },
 		Finish: func(st *Stats, cov map[string]any, tier string) string {
 			cov["exhaustive_within_case"] = true
-			cov["explanation_exhaustive"] = "every call position of every sampled case is faulted (exhaustive within the case) when the fault-free sequence has at most 300 calls; for the rare scale cases (hundreds to thousands of calls) both ends, every write, the usual thresholds and about 60 evenly spaced positions are faulted; the cases themselves are sampled"
+			cov["explanation_exhaustive"] = "every call position of every sampled case is faulted (exhaustive within the case) when the fault-free sequence has at most 300 calls; for the rare scale cases (hundreds to thousands of calls) both ends, the usual thresholds, about 25-40 evenly spaced positions and the writes (all up to 60, else both ends and about 25 evenly spaced) are faulted, thinned further (never below 12 runs) when statement length x call count exceeds 1e8/runs; the cases themselves are sampled"
 			if st.Counters["prefix_diverged"] > 0 {
 				return "the storage-call prefix before an injected fault differed from the fault-free run: the execution is not deterministic"
 			}
@@ -221,6 +222,9 @@ func genC13(seed uint64, i int, tier string) *Scenario {
 			Clients: []Client{{Stmts: []Stmt{{Text: corruptText(r, text), Mode: genMode(r)}}}},
 		}
 	}
+	if i%157 == 77 { // 157: coprime to the worker count, so these slow cases spread over all workers
+		return genC13Scale(r)
+	}
 	t := c13Templates[i%len(c13Templates)]
 	size := pick(r, []int{0, 1, 3, 6, 12, 20, 35, 50})
 	if r.Chance(0.003) {
@@ -242,6 +246,109 @@ func genC13(seed uint64, i int, tier string) *Scenario {
 		Cfg:     cfg,
 		Init:    init,
 		Clients: []Client{{Stmts: []Stmt{{Text: t.gen(r, init), Mode: mode}}}},
+	}
+}
+
+// genC13Scale: statements whose size is far from the everyday ones — key lists
+// of hundreds to thousands of keys, PUTs of hundreds of pairs or megabytes of
+// payload, DELETEs and scans over thousands of rows with batch sizes up to
+// thousands. Code paths that only exist above a size threshold (chunked
+// writes, merged lookups, oversized batches) are reached only here. Fault
+// positions of such cases are sampled (see runC13).
+func genC13Scale(r *Rng) *Scenario {
+	size := pick(r, []int{260, 400, 1100, 2100, 4200})
+	style := pick(r, []string{StoreMixed, StoreInts, StoreText})
+	init := genStore(r, size, style)
+	keys := make([]string, len(init))
+	for j := range init {
+		keys[j] = init[j].K
+	}
+	shuffle(r, keys)
+	// n distinct keys: mostly existing ones, a few missing
+	distinct := func(n int) []string {
+		out := make([]string, 0, n)
+		for j := 0; len(out) < n; j++ {
+			if j < len(keys) && !r.Chance(0.05) {
+				out = append(out, keys[j])
+			} else {
+				out = append(out, fmt.Sprintf("zz%05d", j))
+			}
+		}
+		if r.Bool() {
+			sort.Strings(out)
+		}
+		return out
+	}
+	nlist := pick(r, []int{130, 260, 520, 700, 1030}) // kvql evaluates IN per row over the whole list: rows x list comparisons per run
+	bigval := func(n int) string {
+		return strings.Repeat(pick(r, []string{"v", "ab", "0123456789"}), n)[:n]
+	}
+	var text string
+	switch r.Intn(16) {
+	case 0:
+		text = "select * where key in " + inList(distinct(nlist))
+	case 1:
+		text = "select key, value where key in " + inList(distinct(nlist)) + " & value != 'x'"
+	case 2:
+		ks := distinct(pick(r, []int{130, 300, 520}))
+		parts := make([]string, len(ks))
+		for j, k := range ks {
+			parts[j] = "key = " + quote(k)
+		}
+		text = "select key where " + strings.Join(parts, " | ")
+	case 3:
+		text = "delete where key in " + inList(distinct(nlist))
+	case 4:
+		text = "delete where key in " + inList(distinct(nlist)) + " & value != 'x'"
+	case 5:
+		ks := distinct(nlist)
+		q := make([]string, len(ks))
+		for j := range ks {
+			q[j] = quote(ks[j])
+		}
+		text = "remove " + strings.Join(q, ", ")
+	case 6:
+		ks := distinct(pick(r, []int{130, 600, 1100, 2500}))
+		parts := make([]string, len(ks))
+		for j, k := range ks {
+			parts[j] = "(" + quote(k) + ", " + quote(pick(r, valuePoolText)) + ")"
+		}
+		text = "put " + strings.Join(parts, ", ")
+	case 7:
+		// megabytes of payload in one PUT
+		total := pick(r, []int{70 << 10, 300 << 10, 1200 << 10, 2600 << 10, 6 << 20})
+		np := pick(r, []int{3, 5, 9, 40})
+		parts := make([]string, np)
+		for j := range parts {
+			parts[j] = "(" + quote(fmt.Sprintf("big%03d", j)) + ", " + quote(bigval(total/np)) + ")"
+		}
+		text = "put " + strings.Join(parts, ", ")
+	case 8:
+		text = "delete where " + pick(r, []string{"key >= ''", "value != 'zz'", "key ^= 'k'", "strlen(value) >= 0"})
+	case 9:
+		text = fmt.Sprintf("delete where key > '' limit %d, %d", pick(r, []int{0, 3, 130, 300}), pick(r, []int{100, 129, 300, 1025, 3000}))
+	case 10:
+		text = "select * where " + pick(r, []string{"key ^= 'k'", "value != 'zz'", "key > ''"})
+	case 11:
+		text = "select key, value where key > '' order by value" + pick(r, []string{"", " desc", ", key desc"})
+	case 12:
+		text = "select value, count(1) as c, max(key) where key > '' group by value" + pick(r, []string{"", " order by c desc", " limit 3"})
+	case 13:
+		text = fmt.Sprintf("select key where value != 'zz' limit %d, %d", pick(r, []int{0, 100, 255, 1024, 1500}), pick(r, []int{1, 129, 257, 1025, 3000}))
+	case 14:
+		text = "select count(1), sum(strlen(value)) where key > ''"
+	default:
+		a, b := keys[0], keys[len(keys)/2]
+		if a > b {
+			a, b = b, a
+		}
+		text = pick(r, []string{"select *", "delete"}) + " where key >= " + quote(a) + " & key <= " + quote(b)
+	}
+	return &Scenario{
+		Family:  "scale",
+		Cfg:     Config{Batch: pick(r, []int{1, 3, 32, 65, 129, 257, 1000, 4097}), Cache: r.Bool(), Alias: r.Chance(0.3), Lazy: r.Chance(0.3)},
+		Init:    init,
+		Clients: []Client{{Stmts: []Stmt{{Text: text, Mode: genMode(r)}}}},
 	}
 }
 
@@ -368,9 +475,32 @@ func runC13(sc *Scenario, st *Stats) []Violation {
 			plan = append(plan, fk{f.Call, f.Kind, f.Part})
 		}
 	} else {
+		nw, wi := 0, -1
 		for i := range base {
-			if n := len(base); n > 300 && !(i < 20 || i >= n-20 || i%(n/60+1) == 0 || isMutating(base[i].Op) || i == 255 || i == 256 || i == 299 || i == 300 || i == 1023 || i == 1024) {
-				continue // long sequences: both ends, every (n/60)-th call, every write, and the usual thresholds
+			if isMutating(base[i].Op) {
+				nw++
+			}
+		}
+		for i := range base {
+			mut := isMutating(base[i].Op)
+			if mut {
+				wi++
+			}
+			if n := len(base); n > 300 {
+				// long sequences: both ends, evenly spaced calls (about 40, about 25 beyond 1000
+				// calls), the usual thresholds, and the writes (all of them up to 60; beyond that
+				// both ends and about 25 evenly spaced)
+				step := n/40 + 1
+				if n > 1000 {
+					step = n/25 + 1
+				}
+				keep := i < 10 || i >= n-10 || i%step == 0 || i == 255 || i == 256 || i == 511 || i == 512 || i == 1023 || i == 1024
+				if mut && (nw <= 60 || wi < 8 || wi >= nw-8 || wi%(nw/25+1) == 0) {
+					keep = true
+				}
+				if !keep {
+					continue
+				}
 			}
 			plan = append(plan, fk{r0.EvFrom + i, FErr, 0})
 			if isMutating(base[i].Op) {
@@ -383,6 +513,25 @@ func runC13(sc *Scenario, st *Stats) []Violation {
 					plan = append(plan, fk{r0.EvFrom + i, FPartial, n - 1})
 				}
 			}
+		}
+	}
+	if len(sc.Faults) == 0 && (len(base) > 300 || len(stmt.Text) > 2000) {
+		// scale cases only: kvql's cost per run grows with (statement length x rows) — IN
+		// lists and OR chains are evaluated per row over the whole list — so the number of
+		// faulted runs is bounded by a deterministic cost estimate; the kept entries are
+		// evenly spaced over the plan (first and last always)
+		cost := len(stmt.Text) * (len(base) + 1)
+		maxRuns := 100000000 / cost
+		if maxRuns < 12 {
+			maxRuns = 12
+		}
+		if len(plan) > maxRuns {
+			var kept []fk
+			for j := 0; j < maxRuns; j++ {
+				kept = append(kept, plan[j*(len(plan)-1)/(maxRuns-1)])
+			}
+			plan = kept
+			st.Inc("scale_plan_subsampled")
 		}
 	}
 	for _, f := range plan {
@@ -424,9 +573,13 @@ func runC13(sc *Scenario, st *Stats) []Violation {
 		where := fmt.Sprintf("fault %s at call #%d (%s %s, %s)", f.kind, f.call, be.Op, be.Key, phaseOf(be.Poll))
 		mk := func(kind, detail string) {
 			v := Violation{Prop: "C13", Kind: kind, Detail: where + ": " + detail + " | statement: " + stmt.Text, Sig: sigBase + " " + fsig}
+			if len(vs) >= 12 {
+				return // one case, one cause: a dozen reports of it are enough (each pins a copy of the scenario)
+			}
 			if len(sc.Faults) == 0 {
-				v.Pinned = cloneScenario(sc)
-				v.Pinned.Faults = flt
+				c := *sc // statements and store are shared, not copied: nothing mutates them
+				c.Faults = flt
+				v.Pinned = &c
 			}
 			vs = append(vs, v)
 		}
